@@ -86,6 +86,55 @@ def run(ck: Check):
                 if kind != "line" and n > N - 2 and r.random() < 0.7:
                     continue
                 go(kind, n, core, f"all-subsets-{kind}")
+    # files LOADED by the real splitters, the lines ended by every kind of line terminator Python knows (the atoms the
+    # property speaks of are the splitter's): the result is exactly the core
+    TERMS = [b"\n", b"\r\n", b"\r", b"\x0b", b"\x0c", b"\x1c", b"\x1d", b"\x1e", b"\xc2\x85", b"\xe2\x80\xa8", b"\xe2\x80\xa9"]
+    for shift in range(0, len(TERMS), 1 if not quick else 3):
+        for n in (5, 12):
+            parts = [b"<%d>" % i + TERMS[(i + shift) % len(TERMS)] for i in range(n)]
+            data = b"".join(parts)
+            for core in ([0], [n - 1], [1, 3], list(range(0, n, 2)), list(range(1, n, 2)), [2], []):
+                f, orc = make_oracle(core, parts)
+                ex.oracles = [orc]
+                ck.nontrivial(("terminators", shift, n, tuple(core)))
+                ex.one("minimize", {}, None, data, lambda k, d, f=f: "Y" if f(d) else "N", atom="line", load=True,
+                       stream="loaded-terminators", cap=bound(n, len(core)) + 50)
+    for data, atom, core_parts in ((b"a;b}c{d;\ne]f", "symbol", None), (b"x = 'abc' + \"de\";\n", "jsstr", None),
+                                   (b'<a b="c" d=e f>\n', "attrs", None)):
+        from splitx import impl_load
+        _, t0, _ = impl_load(atom, data)
+        red = [p for p, fl in zip(t0.parts, t0.reducible) if fl]
+        for core in ([0], [len(red) - 1], list(range(0, len(red), 2)), []):
+            keep = [red[i] for i in core]
+
+            def f2(d, keep=keep, t0=t0):
+                pos = len(t0.before)
+                for c in keep:
+                    j = d.find(c, pos)
+                    if j < 0:
+                        return False
+                    pos = j + len(c)
+                return True
+            run_ = ex_run = None
+            from runner import impl_run
+            run_ = impl_run("minimize", {}, None, data, lambda k, d, f2=f2: "Y" if f2(d) else "N", atom=atom, load=True, cap=400)
+            ck.count("loaded-" + atom)
+            ck.nontrivial(("loaded-core", atom, tuple(core)))
+            it, want = iter(core), []
+            keepset = set(core)
+            ri = 0
+            for p, fl in zip(t0.parts, t0.reducible):
+                if not fl:
+                    want.append(p)
+                else:
+                    if ri in keepset:
+                        want.append(p)
+                    ri += 1
+            want = t0.before + b"".join(want) + t0.after
+            if run_.exc is not None or run_.final != want:
+                ck.violation(f"[{atom}] monotone test with core {core} of the {len(red)} reducible atoms of {data!r}: final file "
+                             f"{run_.final!r} (exc={run_.exc}), expected exactly the core with the protected text: {want!r}",
+                             {"atom": atom, "data": data.hex(), "core": core})
     # atoms whose CRC-32 / Adler-32 collide (a weakened de-dup key must not drop a candidate)
     for words in ([b"plumless", b"buckeroo"], [b"plumless", b"buckeroo", b"x", b"y", b"z", b"w"],
                   [b"a", b"plumless", b"b", b"buckeroo"]):
